@@ -531,6 +531,10 @@ class _Fresh:
             if name not in targets:
                 continue
             it = loop.iter
+            if isinstance(it, ast.Call) and dotted(it.func) in ("product", "itertools.product") and len(it.args) > 1:
+                # every element of one factor is paired with every element of the others:
+                # the same object comes back in several iterations
+                return False
             if isinstance(it, ast.Call) and dotted(it.func) in ("product", "itertools.product", "zip"):
                 if isinstance(loop.target, ast.Tuple) and len(loop.target.elts) == len(it.args):
                     idx = [dotted(e) for e in loop.target.elts].index(name)
